@@ -1,0 +1,66 @@
+//go:build verif
+
+// Contracts for the gowp verifier (/verif). Comment-only file: compiled only with -tags verif and
+// contributes no code either way.
+
+package lnwallet
+
+//@ load-pkg github.com/lightningnetwork/lnd/chanstate
+//@ inline-func (github.com/lightningnetwork/lnd/chanstate.ChannelType).*
+//@
+//@ extern func (lnwire.MilliSatoshi) ToSatoshis
+//@   ensures result == fdiv(m, 1000)
+//@
+//@ func CoopCloseBalance
+//@   props C17
+//@   let delta     = commitFee + ite(chanType.HasAnchors(), 660, 0)
+//@   let payerLoc  = ite(feePayer.isSome, feePayer.some == lntypes.Local, isInitiator)
+//@   let payerRem  = ite(feePayer.isSome, feePayer.some == lntypes.Remote, !isInitiator)
+//@   let ourAfter   = ourBalance + ite(isInitiator, delta, 0) - ite(payerLoc, coopCloseFee, 0)
+//@   let theirAfter = theirBalance + ite(isInitiator, 0, delta) - ite(payerRem, coopCloseFee, 0)
+//@   requires 0 <= ourBalance && ourBalance <= 2100000000000000 && 0 <= theirBalance && theirBalance <= 2100000000000000
+//@   requires 0 <= commitFee && commitFee <= 2100000000000000 && 0 <= coopCloseFee && coopCloseFee <= 2100000000000000
+//@   ensures  result2 == nil ==> result0 == ourAfter && result1 == theirAfter
+//@   ensures  result2 == nil ==> result0 >= 0 && result1 >= 0
+//@   ensures  result2 == nil && (!feePayer.isSome || feePayer.some <= 1) ==>
+//@            result0 + result1 == ourBalance + theirBalance + delta - coopCloseFee
+//@   ensures  result2 != nil <==> (ourAfter < 0 || theirAfter < 0)
+//@   nowrap
+//@
+//@ func CreateCooperativeCloseTx
+//@   props C17
+//@   loop * havoc
+//@   site store TxOut.Value nth 0: assert entry(ourBalance) >= localDust && (value == entry(ourBalance) || value == 0)
+//@   site store TxOut.Value nth 1: assert entry(theirBalance) >= remoteDust && (value == entry(theirBalance) || value == 0)
+//@
+//@ func (lc *LightningChannel) CreateCloseProposal
+//@   props C17
+//@   loop * havoc
+//@   requires lc.channelState.LocalCommitment.LocalBalance <= 2100000000000000000 && lc.channelState.LocalCommitment.RemoteBalance <= 2100000000000000000
+//@   requires 0 <= lc.channelState.LocalCommitment.CommitFee && lc.channelState.LocalCommitment.CommitFee <= 2100000000000000
+//@   requires 0 <= proposedFee && proposedFee <= 2100000000000000
+//@   site call CoopCloseBalance: assert arg(coopCloseFee) == proposedFee &&
+//@        arg(isInitiator) == lc.channelState.IsInitiator && arg(chanType) == lc.channelState.ChanType &&
+//@        arg(ourBalance) == fdiv(lc.channelState.LocalCommitment.LocalBalance, 1000) &&
+//@        arg(theirBalance) == fdiv(lc.channelState.LocalCommitment.RemoteBalance, 1000) &&
+//@        arg(commitFee) == lc.channelState.LocalCommitment.CommitFee
+//@   site call CreateCooperativeCloseTx: assert retn(CoopCloseBalance, 2) == nil &&
+//@        arg(ourBalance) == retn(CoopCloseBalance, 0) && arg(theirBalance) == retn(CoopCloseBalance, 1) &&
+//@        arg(localDust) == lc.channelState.LocalChanCfg.DustLimit && arg(remoteDust) == lc.channelState.RemoteChanCfg.DustLimit &&
+//@        arg(ourDeliveryScript) == localDeliveryScript && arg(theirDeliveryScript) == remoteDeliveryScript
+//@
+//@ func (lc *LightningChannel) CompleteCooperativeClose
+//@   props C17
+//@   loop * havoc
+//@   requires lc.channelState.LocalCommitment.LocalBalance <= 2100000000000000000 && lc.channelState.LocalCommitment.RemoteBalance <= 2100000000000000000
+//@   requires 0 <= lc.channelState.LocalCommitment.CommitFee && lc.channelState.LocalCommitment.CommitFee <= 2100000000000000
+//@   requires 0 <= proposedFee && proposedFee <= 2100000000000000
+//@   site call CoopCloseBalance: assert arg(coopCloseFee) == proposedFee &&
+//@        arg(isInitiator) == lc.channelState.IsInitiator && arg(chanType) == lc.channelState.ChanType &&
+//@        arg(ourBalance) == fdiv(lc.channelState.LocalCommitment.LocalBalance, 1000) &&
+//@        arg(theirBalance) == fdiv(lc.channelState.LocalCommitment.RemoteBalance, 1000) &&
+//@        arg(commitFee) == lc.channelState.LocalCommitment.CommitFee
+//@   site call CreateCooperativeCloseTx: assert retn(CoopCloseBalance, 2) == nil &&
+//@        arg(ourBalance) == retn(CoopCloseBalance, 0) && arg(theirBalance) == retn(CoopCloseBalance, 1) &&
+//@        arg(localDust) == lc.channelState.LocalChanCfg.DustLimit && arg(remoteDust) == lc.channelState.RemoteChanCfg.DustLimit &&
+//@        arg(ourDeliveryScript) == localDeliveryScript && arg(theirDeliveryScript) == remoteDeliveryScript
